@@ -143,7 +143,7 @@ def _graph_case(draw, ctx):
     return {"kind": "graph", "spec": spec, "faults": faults}
 
 
-PRODUCERS = ["logic", "limit_fanin", "limit_fanout", "ternary", "unroll", "miter", "sensitization",
+PRODUCERS = ["strip_blackboxes", "logic", "limit_fanin", "limit_fanout", "ternary", "unroll", "miter", "sensitization",
              "sensitivity", "acyclic_unroll", "acyclic_unroll_cyc", "insert_registers", "add_subcircuit",
              "fill_blackbox", "verilog_rt", "verilog_fast_rt", "bench_rt", "sequential_unroll", "supergates"]
 
@@ -153,7 +153,10 @@ def _producer_case(draw, ctx):
     p = draw(st.sampled_from(PRODUCERS))
     if p == "logic":
         return {"kind": "producer", "producer": p, "arg": draw(st.integers(1, 12))}
-    if p == "acyclic_unroll_cyc":
+    if p == "strip_blackboxes":
+        pools = (S.BENIGN,) if draw(st.booleans()) else (S.BENIGN[:8], ["u0_q", "u0_d", "u1_q", "u0_clk", "u0_Y", "u0_A", "u1_d"])
+        spec = draw(S.circuit_spec(min_inputs=1, max_inputs=3, min_gates=1, max_gates=7, max_fanin=3, max_insts=2, pools=pools))
+    elif p == "acyclic_unroll_cyc":
         spec = draw(S.circuit_spec(min_inputs=1, max_inputs=3, min_gates=2, max_gates=7, max_fanin=3, cyclic=True))
     elif p in ("limit_fanin", "limit_fanout", "verilog_rt", "verilog_fast_rt"):
         spec = draw(S.circuit_spec(min_inputs=1, max_inputs=5, min_gates=1, max_gates=9, max_fanin=6, max_insts=1))
@@ -287,7 +290,13 @@ def _check_producer(case, ctx):
     names = sorted(c.graph.nodes)
     pick = names[case["pick"] % len(names)]
     res = None
-    if p == "limit_fanin":
+    if p == "strip_blackboxes":
+        out = lib(cg.tx.strip_blackboxes, c)
+        if not out.ok and out.type == "ValueError":
+            # documented refusal when a pin name would collide with an existing net
+            return {"nontrivial": False, "labels": ["producer_strip_refused"]}
+        res = need(out, "producer|strip_blackboxes", p)
+    elif p == "limit_fanin":
         res = need(lib(cg.tx.limit_fanin, c, case["k"]), "producer|limit_fanin", p)
     elif p == "limit_fanout":
         res = need(lib(cg.tx.limit_fanout, c, case["k"]), "producer|limit_fanout", p)
